@@ -173,6 +173,8 @@ pub struct BParams {
     pub aux_non_epb: bool,
     /// values with four decimals (off for C18, whose bound assumes two-decimal inputs)
     pub fine: bool,
+    /// weight (out of 500) of the long series (365 ... 8 760 steps); 15 = 3 %
+    pub long_w: u32,
 }
 
 impl BParams {
@@ -193,6 +195,7 @@ impl BParams {
             cogen_heavy: false,
             aux_non_epb: false,
             fine: true,
+            long_w: 15,
         }
     }
 }
@@ -639,7 +642,7 @@ pub fn building_g(p: &BParams) -> BoxedStrategy<BuildingG> {
                 any::<bool>(),
                 select(fuels),
                 // long series: about one building in 33 has 365, 1 000, 4 380 or 8 760 steps (total, after tiling)
-                if p.max_steps >= 12 { prop_oneof![485 => Just(0usize), 2 => Just(365usize), 2 => Just(1000usize), 5 => Just(4380usize), 6 => Just(8760usize)].boxed() } else { Just(0usize).boxed() },
+                if p.max_steps >= 12 { prop_oneof![500 - p.long_w => Just(0usize), p.long_w => prop_oneof![2 => Just(365usize), 2 => Just(1000usize), 5 => Just(4380usize), 6 => Just(8760usize)]].boxed() } else { Just(0usize).boxed() },
                 // many systems: about one building in 70
                 if p.max_steps >= 12 { prop_oneof![207 => Just(1usize), 1 => Just(20usize), 1 => Just(70usize), 1 => Just(300usize)].boxed() } else { Just(1usize).boxed() },
             )
